@@ -41,7 +41,7 @@ def write(env, build_inputs):
     rule_handler.run(build_inputs.edges(), build_inputs, buildfile, env)
     post_rules_hook.run(build_inputs, buildfile, env)
 
-    with open(filepath.string(env.base_dirs), 'w') as out:
+    with path.atomic_write(filepath.string(env.base_dirs)) as out:
         buildfile.write(out)
 
 
